@@ -19,7 +19,8 @@ PROPS = {
                 "reduced set - exhaustive for that finite part; C09/mixed draws triples mixing float32 heuristic values "
                 "(0, -0, subnormal, +-max, +-Inf, random bit patterns; NaN excluded) with discrete scores. Non-trivial = the "
                 "pair/triple involves at least one mate score (discrete) or a mate score together with a heuristic value "
-                "(mixed); distinct = distinct score tuples.",
+                "(mixed); distinct = distinct score tuples. "
+                "Being mated in 128 plies (int8 -128, no counterpart on the mating side) is part of the domain of the order, transitivity, increment (-127 -> -128) and Max/Min laws; only the negation law is not asked of it.",
         "assumptions": COMMON_ASSUMPTIONS + [
             "mate distance 0 and NaN evaluations are outside the domain; the increment law is judged for |k| <= 126 (int8 distance)"],
         "level_text": "Exploration with an exhaustive core: every pair of the 256 discrete scores and 60k generated float/discrete "
@@ -85,7 +86,8 @@ PROPS = {
                 "different move orders that the oracle says reach the same position, plus the same position set up directly with other "
                 "clocks. C07/separation: a position and one single-component change (side, one right, e.p. file, piece added/removed/"
                 "recoloured/retyped/moved) must hash differently. Non-trivial = distinct cases containing a castle, e.p., promotion, "
-                "capture-promotion or rights change (walk); every transposition pair and separation pair. evaluations = cases.",
+                "capture-promotion or rights change (walk); every transposition pair and separation pair. evaluations = cases. "
+                "A third of the walks fork the board and operate on fork and origin alternately (both are judged after every operation: they are independent). C07/birthday: every distinct position met in 72k generated games (plus the neighbours of the final positions), hashed from scratch with one fixed table - about 140k positions per shard, capped at 400k: two different positions with one hash are reported as a C07/separation case (4e-9 for honest 64-bit keys at the cap; expected many times over for keys of 32 bits or fewer).",
         "assumptions": COMMON_ASSUMPTIONS + ["hash inequality is judged up to the 2^-64 coincidence the property allows"],
         "level_text": "Exploration: ~16k push/pop histories x (up to 70 ops) per quick run over several table seeds compare the "
                       "incremental hash with the from-scratch hash after every operation; path independence and separation are "
@@ -501,7 +503,8 @@ PROPS = {
                 "detector reports nothing with a frame in transposition.go. C17/sequential: single-goroutine programs against an "
                 "exact model of the replacement policy (accept iff resident value <= new value), Read and Used. Non-trivial = "
                 "distinct programs in which at least two goroutines write the same hash AND two write different hashes of one "
-                "slot (concurrent); programs that leave an entry (sequential). evaluations = programs (x rounds).",
+                "slot (concurrent); programs that leave an entry (sequential). evaluations = programs (x rounds). "
+                "A fifth of the tagged stores carry no move (what the searches store for leaves and quiescence results).",
         "assumptions": COMMON_ASSUMPTIONS + ["the interleaving is not owned by the harness (stress + race detector + history invariants); a yield hook inside the CAS loop was deliberately not added",
                                              "table sizes >= 32 bytes"],
         "level_text": "Stress exploration under the race detector: ~6k concurrent programs x up to 8 rounds per quick run with "
